@@ -98,6 +98,9 @@ def gen_spec(rng, i):
                     'out': rng.choice([2, 3, 4]), 'bmag': rng.choice([0.05, 0.5, 2.0])}
             if not head['pool'] and c * h * w > 400:
                 continue
+            if rng.random() < 0.35:
+                head['hidden'] = rng.choice([3, 5, 8])
+                head['hidden_bias'] = bias_mode == 'all' or (bias_mode == 'mixed' and rng.random() < 0.5)
         kw = rng.choice([{}, {}, {'scale_bit': 8, 'shift_pos': 16}, {'scale_bit': 16, 'shift_pos': 32}, {'scale_bit': 32, 'shift_pos': 32},
                          {'scale_bit': 4, 'shift_pos': 8}, {'scale_bit': 12, 'shift_pos': 24}])
         return {'seed': rng.randrange(1 << 30), 'cin': cin, 'hw': hw, 'wbits': rng.choice([2, 4, 8]), 'abits': rng.choice([2, 4, 8]),
@@ -127,6 +130,8 @@ def features(spec):
         fs.add('fullyconv')
     else:
         fs.add('pool' if spec['head']['pool'] else 'flatten')
+        if spec['head'].get('hidden'):
+            fs.add('hidden-linear' + ('' if spec['head'].get('hidden_bias', True) else '-no-bias'))
         if not spec['head']['bias']:
             fs.add('linear-no-bias')
     return sorted(fs)
@@ -356,7 +361,7 @@ def run(ctx):
     setup_torch()
     built = ctx.build()
     ctx.rule = ('networks: grammar of 1..2 blocks (plain conv | depthwise+pointwise) with kernel in {1x1,3x3,3x1,1x3,2x2,3x2}, per-axis stride/padding, '
-                'dilation 2..3 on exactly one axis, BN, bias all/none/mixed, head = flatten|avgpool + Linear or fully convolutional; w/a bits in {2,4,8}; '
+                'dilation 2..3 on exactly one axis, BN, bias all/none/mixed, head = flatten|avgpool + [hidden Linear + ReLU] + Linear or fully convolutional; w/a bits in {2,4,8}; '
                 'random PACT clips; both backends, MATCH scale_bit/shift_pos in {default,(8,16),(16,32),(32,32),(4,8),(12,24)}; one case = one (network, backend); '
                 'non-trivial = integerization succeeded with >= 2 layers or exercised an error path; distinct by spec. '
                 'direct streams: _integer_approximation (bias at the int32 boundary, saturating/tiny targets, no admissible shift) and binary_search')
@@ -384,6 +389,9 @@ def run(ctx):
         {'seed': 14, 'cin': 2, 'hw': [6, 6], 'wbits': 8, 'abits': 8, 'kwargs': {}, 'shape': 'corpus', 'bias_mode': 'all', 'clip_lo': 0.4, 'clip_hi': 8.0,
          'layers': [dict(kind='conv', cout=3, k=[3, 3], stride=[1, 1], pad=[1, 2], dil=[1, 1], dw=False, bias=True, bn=False, feat='apad')],
          'head': {'pool': False, 'bias': True, 'out': 2}},
+        {'seed': 17, 'cin': 2, 'hw': [4, 4], 'wbits': 8, 'abits': 4, 'kwargs': {}, 'shape': 'corpus', 'bias_mode': 'mixed', 'clip_lo': 0.4, 'clip_hi': 8.0,
+         'layers': [dict(kind='conv', cout=3, k=[3, 3], stride=[1, 1], pad=[1, 1], dil=[1, 1], dw=False, bias=True, bn=True, feat='plain')],
+         'head': {'pool': False, 'bias': True, 'out': 3, 'hidden': 5, 'hidden_bias': False}},
         {'seed': 15, 'cin': 2, 'hw': [6, 6], 'wbits': 8, 'abits': 8, 'kwargs': {}, 'shape': 'corpus', 'bias_mode': 'all', 'clip_lo': 0.4, 'clip_hi': 8.0,
          'layers': [dict(kind='conv', cout=3, k=[3, 3], stride=[1, 1], pad=[1, 1], dil=[1, 1], dw=False, bias=True, bn=False, feat='plain'),
                     dict(kind='conv', cout=2, k=[3, 3], stride=[1, 1], pad=[0, 0], dil=[1, 1], dw=False, bias=True, bn=False, feat='plain')],
